@@ -33,6 +33,7 @@ FS_INFO = ("os.chdir", "os.listdir", "os.scandir", "shutil.copyfile", "shutil.co
            "shutil.rmtree", "shutil.move", "shutil.chown", "shutil.make_archive", "shutil.unpack_archive",
            "tempfile.mkstemp", "tempfile.mkdtemp", "glob.glob", "ctypes.dlopen", "socket.__new__", "socket.gethostname",
            "os.putenv", "os.unsetenv", "mmap.__new__", "fcntl.flock", "fcntl.lockf", "signal.pthread_kill", "syslog.openlog", "syslog.syslog")
+MOUNT_OF = {"tmpdir": "tmp", "home": "home"}
 WRITE_FLAGS = os.O_WRONLY | os.O_RDWR | os.O_APPEND | os.O_CREAT | os.O_TRUNC
 
 
@@ -286,10 +287,15 @@ class _Sim:
                 if sim.armed and a:
                     ab, real = sim.norm(a[0], follow_last=False)
                     cls = classify(real, sim.layout)
-                    if op == "rename" and len(a) > 1:
+                    if op in ("rename", "link") and len(a) > 1:
                         _, real2 = sim.norm(a[1], follow_last=False)
                         cls2 = classify(real2, sim.layout)
-                        f = sim.match_fault(op, cls2) or sim.match_fault(op, cls)
+                        # simulated mount table: the temp directory, the home directory and everything else are three file systems
+                        # (as /tmp, /home and a data disk usually are): rename and link do not cross them
+                        if MOUNT_OF.get(cls, "data") != MOUNT_OF.get(cls2, "data"):
+                            sim.record("sim.xdev", op=name, src=cls, dst=cls2)
+                            raise OSError(_errno.EXDEV, os.strerror(_errno.EXDEV), str(a[0]))
+                        f = (sim.match_fault(op, cls2) or sim.match_fault(op, cls)) if op == "rename" else None
                     else:
                         f = sim.match_fault(op, cls)
                     if f is not None:
@@ -307,6 +313,7 @@ class _Sim:
         wrap_os("unlink", "remove")
         wrap_os("mkdir", "mkdir")
         wrap_os("rmdir", "rmdir")
+        wrap_os("link", "link")
 
     # ---------------------------------------------------------------- compute_tax recorder
     def patch_compute_tax(self):
